@@ -297,7 +297,7 @@ func soundness(c palsCase, b built, hits dp.Hits, target, query []byte, comp boo
 }
 
 func gen(t *rapid.T) palsCase {
-	c := palsCase{MinHit: rapid.IntRange(100, 400).Draw(t, "min-hit"), MinIDPct: rapid.IntRange(85, 95).Draw(t, "min-id"), RepLenPct: rapid.IntRange(150, 250).Draw(t, "rep-len"),
+	c := palsCase{MinHit: rapid.IntRange(100, 400).Draw(t, "min-hit"), MinIDPct: rapid.IntRange(85, 95).Draw(t, "min-id"), RepLenPct: rapid.IntRange(120, 250).Draw(t, "rep-len"),
 		T0Pct: rapid.IntRange(0, 1000).Draw(t, "t0"), Q0Pct: rapid.IntRange(0, 1000).Draw(t, "q0"), SeedT: rapid.Uint64().Draw(t, "seed-t"), SeedQ: rapid.Uint64().Draw(t, "seed-q"), SeedM: rapid.Uint64().Draw(t, "seed-m")}
 	maxLen := 8000
 	if vlib.Thorough() {
